@@ -53,7 +53,10 @@ LEVEL_NOTE = ("Trusted: the Lean kernel (leanchecker re-check in the thorough ti
               "transcoders/ICU/Xerces, XalanOutputStream buffering, characters outside the BMP in HTML and under non-Unicode "
               "XML encodings (read-back predicates only), non-ASCII comments/PIs in HTML; the legacy FormatterToXML consumers of "
               "m_nextIsRaw are covered by the translator obligation and, as base of FormatterToHTML, by the HTML correspondence. "
-              "html_indent_not_adjacent_to_text assumes no void element is given children (counterexample proved and replayed).")
+              "html_indent_not_adjacent_to_text assumes no void element is given children (counterexample proved and replayed). "
+              "Two known findings with proposed repairs: FormatterToHTML::cdata (copied CDATA section nodes of a Xerces DOM source) "
+              "and the ignored start offset of XSLTEngineImpl::charactersRaw/cdata; the affected cases are keyed and, for the "
+              "first, not compared with the model (which states the HTML output method: html_raw_scoped_to_script_style).")
 DESIGN_REF = "DESIGN.md section 5, C08; design/C08.md"
 
 P = "XalanModel.Props.C08."
@@ -74,6 +77,9 @@ THEOREMS = [P + n for n in [
     "raw_flag_one_text_event",
     "html_raw_flag_exact",
     "raw_flag_consumers_reset",
+    "html_raw_scoped_to_script_style",
+    "engine_slice_spec",
+    "encoding_writers_flush_before_bulk_write",
     "callpoints_match",
     "html_table_sorted",
     "html_entities_sorted",
@@ -488,6 +494,8 @@ def sax_variants(r, thorough):
     mk("standalone", standalone=r.choice(["yes", "no"]), xmldecl=r.chance(1, 2))
     mk("doctype", dsys="sys.dtd", dpub=r.choice(["", "-//X//DTD y//EN", "-//W3C//DTD XHTML 1.0 Strict//EN"]))
     mk("v11", ver="1.1")
+    mk("longdoctype", dsys="s" * r.choice([511, 513, 1025]) + ".dtd", dpub=r.choice(["", "-//X//" + "p" * 600 + "//EN"]),
+       enc=r.choice(["UTF-16", "UTF-8", "ISO-8859-1"]))
     n = 4 if thorough else 2
     for k in range(n):
         mk("mix%d" % k, indent=r.chance(2, 3), amount=r.range(0, 5), enc=r.choice(ENCODINGS), xmldecl=r.chance(3, 4),
@@ -634,6 +642,7 @@ def run(ctx):
     ctx.build("hooks")
     ctx.translate("c08_callpoints")
     ctx.translate("c08_html_table")
+    ctx.translate("c04_tables")     # writer/stream buffer facts (bulkFlush…) used as an obligation of the encoding theorems
     ctx.lean("XalanModel.Props.C08", THEOREMS, extra_targets=["xm_c08"])
     model = ctx.exe("xm_c08")
     harness = common.build_harness("c08_serialize", ["c08_serialize.cpp"], flavor="hooks", sanitize=False)
@@ -653,6 +662,10 @@ def run(ctx):
     r = Rng(ctx.seed)
     run_sax_xml(ctx, r, runner, state)
     run_sax_html(ctx, r, runner, state, tab)
+    factspath = os.path.join(common.CACHE, "c08_facts.json")
+    facts = json.load(open(factspath)) if os.path.exists(factspath) else {}
+    run_xs(ctx, r, runner, state, tab, facts)
+    run_eraw(ctx, r, runner, state, facts)
     run_xf(ctx, r, runner, state, tab)
     ctx.oblige("correspondence: real serializer output = Lean model rendering on every generated case", "correspondence",
                not disagreements, json.dumps(disagreements[:3], ensure_ascii=True))
@@ -696,6 +709,25 @@ CORPUS_DOCS += [([("elem", "a", [], [("elem", "c", [], [("rtfraw", rw), ("text",
                 for rw in ("<r/>", "r") for t in RTF_TEXTS for cd in (["c"], ["c", "d"], [])]
 CORPUS_DOCS += [([("elem", "a", [], [("elem", "c", [], [("rtfraw", "r"), ("elem", "e", [], []), ("text", "1 < 2"), ("rtfraw", "s"), ("comment", "m"),
                                                        ("text", "3 & 4"), ("text", "5 < 6")])])], cd) for cd in (["c"], [])]
+# runs longer than the 512-unit buffers of the writers and of XalanOutputStream: the bulk write(chars, n) paths (element and
+# attribute names, disable-output-escaping text direct and replayed from a result tree fragment, comments, PI data, text,
+# attribute values), at the lengths around one, two and four buffers, compared as parsed trees across the encodings
+LONG_LENGTHS = [511, 512, 513, 1025, 2049]
+
+
+def long_docs():
+    out = []
+    for n in LONG_LENGTHS:
+        w = ("abcdefghij" * (n // 10 + 1))[:n]
+        out += [
+            ([("elem", "a", [("k", "v")], [("elem", "b", [], [("raw", w)]), ("text", "t")])], []),
+            ([("elem", "a", [], [("elem", "b", [], [("rtfraw", w), ("text", "1 < 2")])])], ["b"]),
+            ([("elem", "a", [], [("elem", "n" + w[1:], [], [("text", "t")])])], []),
+            ([("elem", "a", [("k" + w[1:], "v"), ("j", w)], [("text", w), ("comment", w), ("pi", "t", w)])], []),
+        ]
+    return out
+
+
 NONCHAR_DOCS = [([("elem", "a", [], [("text", t)])], cd) for t in ["x\udc00y", "\ud800", "x\ud800y", "\ufffe", "x\uffff"] for cd in (["a"], [])]
 NONCHAR_DOCS += [([("elem", "a", [("k", "\udc00")], [])], []), ([("elem", "a", [], [("comment", "c\ud800")])], [])]
 
@@ -730,7 +762,7 @@ def check_text_output(ctx, state, tag, enc, want, rep, mrep, line, inp):
 
 def run_sax_xml(ctx, r, runner, state):
     n = 1500 if not ctx.thorough else 12000
-    docs = [(d, c) for d, c in CORPUS_DOCS + NONCHAR_DOCS]
+    docs = [(d, c) for d, c in CORPUS_DOCS + NONCHAR_DOCS + long_docs()]
     for _ in range(n):
         doc = G.gen_doc(r, maxdepth=3 if not ctx.thorough else 4)
         cd = [x for x in G.NAMES if r.chance(1, 4)] if r.chance(1, 3) else []
@@ -788,6 +820,214 @@ def exhaustive_mixed():
             if n <= 3:
                 out.append(([("elem", "a", [], list(combo))], ["a", "c"]))
     return out
+
+
+# ---- copied CDATA section nodes (Xerces DOM source) and the HTML output method
+
+XS_TEXTS = ["a<b", "c&d", "1 < 2 & 3", "x", "<", "p > q", "e&amp;f"]
+
+
+def gen_xs_doc(r):
+    """HTML result tree in which some text nodes are copies (xsl:copy-of) of CDATA section nodes of the source:
+    ("cdnode", text).  script/style elements come first, later siblings / nested elements / attributes carry < and &."""
+    def leaf():
+        k = r.weighted([("cdnode", 5), ("text", 4), ("comment", 1)])
+        if k == "comment":
+            return ("comment", "c")
+        return (k, r.choice(XS_TEXTS))
+
+    def block(depth):
+        name = r.choice(["p", "div", "span", "b", "td", "li"])
+        attrs = [("title", r.choice(["a<b", "c&d", "t"]))] if r.chance(1, 3) else []
+        kids = []
+        for _ in range(r.range(1, 3)):
+            if depth > 0 and r.chance(1, 3):
+                kids.append(block(depth - 1))
+            elif r.chance(1, 6):
+                kids.append(rawelem())
+            else:
+                kids.append(leaf())
+        return ("elem", name, attrs, kids)
+
+    def rawelem():
+        return ("elem", r.choice(["script", "style"]), [], [(r.choice(["text", "cdnode"]), r.choice(["if (a<b) x();", "p > q {}", "a&&b"]))])
+    body = []
+    if r.chance(3, 4):
+        body.append(rawelem())
+    for _ in range(r.range(1, 3)):
+        body.append(block(r.range(0, 2)))
+    if r.chance(1, 3):
+        body.append(leaf())
+    head = [("elem", "head", [], [rawelem()])] if r.chance(1, 3) else []
+    return [("elem", "html", [], head + [("elem", "body", [], body)])]
+
+
+def xs_parts(doc):
+    """source document, template body, per-source-kind events and expected tree of an xs tree"""
+    cds = []
+
+    def body(nodes):
+        out = []
+        for n in nodes:
+            if n[0] == "elem":
+                out.append("<" + n[1] + "".join(' %s="%s"' % (a, G.esc_attr(v)) for a, v in n[2]) + ">" + body(n[3]) + "</" + n[1] + ">")
+            elif n[0] == "text":
+                out.append("<xsl:text>" + G.esc_text(n[1]) + "</xsl:text>")
+            elif n[0] == "comment":
+                out.append("<xsl:comment><xsl:text>" + G.esc_text(n[1]) + "</xsl:text></xsl:comment>")
+            elif n[0] == "cdnode":
+                cds.append(n[1])
+                out.append('<xsl:copy-of select="/r/c[%d]/node()"/>' % len(cds))
+        return "".join(out)
+    tb = body(doc)
+    src = "<r>" + "".join("<c><![CDATA[%s]]></c>" % t for t in cds) + "</r>"
+
+    def events(nodes, dom):
+        ev = []
+        for n in nodes:
+            if n[0] == "elem":
+                ev.append(("S", n[1], n[2]))
+                ev += events(n[3], dom)
+                ev.append(("E", n[1]))
+            elif n[0] == "text":
+                ev.append(("T", n[1]))
+            elif n[0] == "cdnode":
+                ev.append(("C" if dom else "T", n[1]))
+            elif n[0] == "comment":
+                ev.append(("M", n[1]))
+        return ev
+
+    def tree(nodes):
+        return [("elem", n[1], list(n[2]), tree(n[3])) if n[0] == "elem" else ("text", n[1]) if n[0] in ("text", "cdnode") else n for n in nodes]
+    return src, tb, events, tree(doc)
+
+
+def cdnode_outside_raw(nodes, in_raw=False):
+    for n in nodes:
+        if n[0] == "elem":
+            if cdnode_outside_raw(n[3], in_raw or n[1].upper() in HTML4_RAW):
+                return True
+        elif n[0] == "cdnode" and not in_raw:
+            return True
+    return False
+
+
+def run_xs(ctx, r, runner, state, tab, facts):
+    n = 150 if not ctx.thorough else 2500
+    corpus = [
+        [("elem", "html", [], [("elem", "body", [], [("elem", "script", [], [("text", "x")]), ("elem", "p", [], [("cdnode", "a<b&c")])])])],
+        [("elem", "html", [], [("elem", "body", [], [("elem", "p", [], [("cdnode", "a<b&c")])])])],
+        [("elem", "html", [], [("elem", "head", [], [("elem", "style", [], [("cdnode", "p > q {}")])]),
+                               ("elem", "body", [], [("elem", "div", [("title", "a<b&c")], [("text", "1 < 2"), ("elem", "b", [], [("cdnode", "3 & 4")])]), ("cdnode", "<")])])],
+        [("elem", "html", [], [("elem", "body", [], [("elem", "script", [], [("cdnode", "if (a<b) x();")]), ("text", "t<u")])])],
+    ]
+    lines, meta = [], []
+    for t in range(n + len(corpus)):
+        doc = corpus[t] if t < len(corpus) else gen_xs_doc(r)
+        src, tb, events, exp = xs_parts(doc)
+        for dom in (0, 1):
+            for tag, method, indent in (("html", "html", "no"), ("html-indent", "html", "yes"), ("xml", "xml", "no")):
+                sheet = ('<?xml version="1.0"?><xsl:stylesheet version="1.0" xmlns:xsl="%s"><xsl:output method="%s" indent="%s"/>'
+                         '<xsl:template match="/">%s</xsl:template></xsl:stylesheet>' % (G.XSL_NS, method, indent, tb))
+                line = " ".join(["xs", str(dom), G.hx(src), G.hx(sheet), "method=" + method, "indent=" + indent, "|"] + G.ev_words(events(doc, dom)))
+                meta.append((doc, exp, dom, tag, method, indent == "yes", len(lines)))
+                lines.append(line)
+    il, ml, irc, mrc, ierr, merr = runner.run(lines, "xs")
+    if irc != 0 or len(il) < len(lines):
+        bad = lines[len(il)] if len(il) < len(lines) else ""
+        ctx.fail("xs.crash", "harness stopped (rc=%s) at request %d: %s" % (irc, len(il), ierr[-600:]), {"line": bad[:3000]})
+        return
+    if mrc != 0 or len(ml) < len(lines):
+        ctx.oblige("model driver ran to completion (xs)", "correspondence", False, merr[-600:])
+        return
+    for doc, exp, dom, tag, method, ind, off in meta:
+        rep, mrep, line = il[off], ml[off], lines[off]
+        inp = {"kind": "xs", "variant": tag, "xerces_dom_source": bool(dom), "doc": doc, "line": line[:3000]}
+        affected = method == "html" and dom == 1 and cdnode_outside_raw(doc) and not facts.get("htmlCdataIsText", True)
+        ctx.case(nontrivial_key=line if dom else None, cls="xs:%s:%s" % (tag, "dom" if dom else "tree"))
+        if not rep.startswith("ok "):
+            ctx.fail("xs.error[%s]" % tag, "transform failed: " + rep, inp)
+            continue
+        _, text = decode_out(rep[3:], "UTF-8")
+        bad = None
+        try:
+            if method == "html":
+                tree = html_norm(parse_html(text, tab), tab, True)
+                bad = embeds(tree, html_norm(exp, tab, False), ci=True)
+            else:
+                tree = parse_xml(text)
+                want = expected_tree([("elem", n[1], n[2], []) if False else n for n in doc_as_text(doc)])
+                bad = None if tree == want else "trees differ: %r vs %r" % (tree, want)
+        except (ValueError, xml.parsers.expat.ExpatError) as e:
+            bad = "output cannot be read back: %s" % e
+        if bad is not None:
+            key = "html.cdata-node[copied CDATA section node outside script/style]" if affected else "xs.tree[%s]" % tag
+            ctx.fail(key, "a copied CDATA section node must be written as text of the %s output method: %s; output %r" % (method, bad, text[:300]), inp)
+            continue
+        if affected:
+            continue        # unrepaired FormatterToHTML::cdata: the model states the HTML output method, see the finding
+        mt = model_text(mrep)
+        if mt != text:
+            state["disagree"](tag, line, text, mt if mt is not None else mrep, "xs output differs")
+
+
+def doc_as_text(nodes):
+    out = []
+    for n in nodes:
+        if n[0] == "elem":
+            out.append(("elem", n[1], n[2], doc_as_text(n[3])))
+        elif n[0] == "cdnode":
+            out.append(("text", n[1]))
+        else:
+            out.append(n)
+    return out
+
+
+# ---- the engine's (buffer, start, length) entry points
+
+def run_eraw(ctx, r, runner, state, facts):
+    n = 150 if not ctx.thorough else 3000
+    cases = [("raw", "ab<c&d>ef", 2, 4), ("cdata", "ab<c&d>ef", 2, 4), ("chars", "ab<c&d>ef", 2, 4), ("raw", "xyz", 0, 3), ("raw", "xyz", 2, 1)]
+    for _ in range(n):
+        buf = "".join(r.choice(list("abcxyz012 ") + ["<", "&", ">", "\u00e9"]) for _ in range(r.range(1, 12)))
+        start = r.range(0, len(buf) - 1)
+        ln = r.range(1, len(buf) - start)
+        cases.append((r.choice(["raw", "raw", "cdata", "chars"]), buf, start, ln))
+    lines = ["eraw %s %d %d %s" % (k, st, ln, G.hx(buf)) for k, buf, st, ln in cases]
+    il, ml, irc, mrc, ierr, merr = runner.run(lines, "eraw")
+    if irc != 0 or len(il) < len(lines):
+        ctx.fail("eraw.crash", "harness stopped (rc=%s) at request %d: %s" % (irc, len(il), ierr[-600:]), {"line": lines[min(len(il), len(lines) - 1)]})
+        return
+    if mrc != 0 or len(ml) < len(lines):
+        ctx.oblige("model driver ran to completion (eraw)", "correspondence", False, merr[-600:])
+        return
+    for (k, buf, st, ln), rep, mrep, line in zip(cases, il, ml, lines):
+        want = buf[st:st + ln]
+        inp = {"kind": "eraw", "entry": k, "buffer": buf, "start": st, "length": ln, "line": line}
+        ctx.case(nontrivial_key=line if st else None, cls="eraw:" + k)
+        if not rep.startswith("ok "):
+            ctx.fail("eraw.error[%s]" % k, "engine call failed: " + rep, inp)
+            continue
+        _, text = decode_out(rep[3:], "UTF-8")
+        if k == "raw":
+            got = text[3:-4] if text.startswith("<a>") and text.endswith("</a>") else None
+        else:
+            try:
+                t = parse_xml(text)
+                got = "".join(x[1] for x in t[0][3] if x[0] == "text") if t and t[0][0] == "elem" else None
+            except xml.parsers.expat.ExpatError:
+                got = None
+        if got != want:
+            fact = {"raw": "engineRawUsesStart", "cdata": "engineCdataUsesStart", "chars": "engineCharactersUsesStart"}[k]
+            if got == buf[:ln] and st > 0 and not facts.get(fact, True) and k in ("raw", "cdata"):
+                key = "engine.start-offset-ignored[%s]" % k
+            else:
+                key = "eraw.slice[%s]" % k
+            ctx.fail(key, "XSLTEngineImpl::%s(ch, %d, %d) delivered %r, the slice is %r" % (
+                {"raw": "charactersRaw", "cdata": "cdata", "chars": "characters"}[k], st, ln, got, want), inp)
+        mt = model_text(mrep)
+        if mt != text:
+            state["disagree"]("eraw:" + k, line, text, mt if mt is not None else mrep, "engine entry point output differs")
 
 
 # ---- stylesheet level
